@@ -455,49 +455,54 @@ _KEEP.append(_binascii.hexlify)
 
 # -- BytesIO / bytearray / memoryview models (always substituted so that
 #    symbolic data can be written into them later)
-class SBytesIO(object):
+class SBytesIO(_io.BytesIO):
+    """io.BytesIO that also accepts symbolic bytes (append-only use); purely
+    concrete use stays a real BytesIO (so the stdlib can wrap it)."""
+
     def __init__(self, initial=b''):
-        self._parts = [initial] if len(initial) else []
-        self._pos = 0
+        if isinstance(initial, SBytes):
+            _io.BytesIO.__init__(self)
+            self._sx = [initial]
+        else:
+            _io.BytesIO.__init__(self, initial)
+            self._sx = None
+        self._sxpos = 0
 
     def write(self, data):
+        if self._sx is None:
+            if not isinstance(data, SBytes):
+                if isinstance(data, (SByteArray, SMemoryView)):
+                    data = mkbytes(data._sx_elems())
+                    if not isinstance(data, SBytes):
+                        return _io.BytesIO.write(self, data)
+                else:
+                    return _io.BytesIO.write(self, data)
+            self._sx = [_io.BytesIO.getvalue(self)]
         if not isinstance(data, (bytes, bytearray, SBytes, memoryview)):
             raise TypeError("a bytes-like object is required, not '%s'" %
                             type(data).__name__)
         if len(data):
-            self._parts.append(bytes(data) if isinstance(data, (bytearray, memoryview)) else data)
+            self._sx.append(bytes(data) if isinstance(
+                data, (bytearray, memoryview)) else data)
         return len(data)
 
     def getvalue(self):
-        if not self._parts:
-            return b''
-        if len(self._parts) > 1:
-            self._parts = [SBytes(()).join(self._parts)]
-        return self._parts[0]
+        if self._sx is None:
+            return _io.BytesIO.getvalue(self)
+        if len(self._sx) > 1:
+            self._sx = [SBytes(()).join(self._sx)]
+        return self._sx[0] if self._sx else b''
 
     def read(self, n=-1):
+        if self._sx is None:
+            return _io.BytesIO.read(self, n)
         v = self.getvalue()
         if n is None or n < 0:
-            r = v[self._pos:]
+            r = v[self._sxpos:]
         else:
-            r = v[self._pos:self._pos + n]
-        self._pos += len(r)
+            r = v[self._sxpos:self._sxpos + n]
+        self._sxpos += len(r)
         return r
-
-    def seek(self, pos, whence=0):
-        if whence == 0:
-            self._pos = pos
-        elif whence == 2:
-            self._pos = len(self.getvalue()) + pos
-        else:
-            self._pos += pos
-        return self._pos
-
-    def tell(self):
-        return self._pos
-
-    def close(self):
-        pass
 
 
 class SByteArray(object):
@@ -553,6 +558,21 @@ class SByteArray(object):
     def __iter__(self):
         for x in self._e:
             yield mkint(x)
+
+    def extend(self, data):
+        self._e.extend(elems_of(data))
+
+    def append(self, v):
+        self._e.append(v.e if isinstance(v, SymInt) else v)
+
+    def __iadd__(self, data):
+        self._e.extend(elems_of(data))
+        return self
+
+    def decode(self, *a, **k):
+        return lift(mkbytes(self._e)).decode(*a, **k) \
+            if isinstance(mkbytes(self._e), SBytes) \
+            else mkbytes(self._e).decode(*a, **k)
 
     def startswith(self, p):
         return lift(mkbytes(self._e)).startswith(p)
@@ -879,6 +899,8 @@ def _sxrt_m(recv, name, args, kw):
         if m is not None:
             return m(recv, *args, **kw)
         if tf in _CFUNC_TYPES:
+            if fid in _TRANSPARENT_FUNCS:
+                return f(*args, **kw)
             slf = getattr(f, '__self__', None)
             if type(slf) in _TRANSPARENT or (tf is not
                                               types.BuiltinFunctionType and
@@ -899,6 +921,64 @@ import collections as _collections   # noqa: E402
 _TRANSPARENT = frozenset([list, dict, tuple, set, frozenset,
                           _collections.deque, _collections.OrderedDict,
                           _collections.defaultdict])
+
+
+import pickle as _pickle    # noqa: E402
+
+# -- pickle: proxies travel through pickles as persistent ids (structural
+#    box): loads(dumps(x)) == x with no sharing, bytes stay concrete
+PICKLE_BOX = []
+
+
+class _BoxPickler(_pickle.Pickler):
+    def persistent_id(self, obj):
+        if isinstance(obj, _PROXY):
+            PICKLE_BOX.append(obj)
+            return ('symx', len(PICKLE_BOX) - 1)
+        return None
+
+
+class _BoxUnpickler(_pickle.Unpickler):
+    def persistent_load(self, pid):
+        if isinstance(pid, tuple) and pid and pid[0] == 'symx':
+            return PICKLE_BOX[pid[1]]
+        raise _pickle.UnpicklingError('unsupported persistent id')
+
+
+def _pickle_dumps(obj, protocol=None, **kw):
+    f = _io.BytesIO()
+    _BoxPickler(f, protocol, **kw).dump(obj)
+    return f.getvalue()
+
+
+def _pickle_loads(data, **kw):
+    if isinstance(data, (SByteArray, SMemoryView)):
+        data = mkbytes(data._sx_elems())
+    if isinstance(data, SBytes):
+        raise Unsupported('unpickling symbolic bytes')
+    return _BoxUnpickler(_io.BytesIO(data), **kw).load()
+
+
+ALWAYS_FUNCS[id(_pickle.dumps)] = _pickle_dumps
+ALWAYS_FUNCS[id(_pickle.loads)] = _pickle_loads
+_KEEP.extend([_pickle.dumps, _pickle.loads])
+
+import bisect as _bisect    # noqa: E402
+import heapq as _heapq      # noqa: E402
+import operator as _operator  # noqa: E402
+# C functions that only compare / move their arguments through the normal
+# special-method protocol (comparisons fork through SymBool.__bool__)
+_TRANSPARENT_FUNCS = set()
+for _f in (_bisect.insort, _bisect.insort_left, _bisect.insort_right,
+           _bisect.bisect, _bisect.bisect_left, _bisect.bisect_right,
+           _heapq.heappush, _heapq.heappop, _heapq.heapify, _operator.eq,
+           _operator.ne, _operator.lt, _operator.le, _operator.gt,
+           _operator.ge, _operator.add, _operator.sub, _operator.itemgetter,
+           max, min, sorted, zip, enumerate, len, iter, next, id, print,
+           getattr, setattr, hasattr, callable, any, all, map, filter, list,
+           tuple, dict, reversed):
+    _TRANSPARENT_FUNCS.add(id(_f))
+    _KEEP.append(_f)
 
 
 def _sxrt_mod(a, b):
